@@ -228,6 +228,24 @@ func (c *Ctx) Finish() {
 	}
 }
 
+// Checkpoint writes the result collected so far (done=false), so that it survives a crash of
+// the code under test.
+func (c *Ctx) Checkpoint() {
+	if c.Out == "" {
+		return
+	}
+	done := c.Res.Done
+	c.Res.Done = false
+	b, err := json.Marshal(&c.Res)
+	c.Res.Done = done
+	if err != nil {
+		return
+	}
+	if os.WriteFile(c.Out+".tmp", b, 0644) == nil {
+		_ = os.Rename(c.Out+".tmp", c.Out)
+	}
+}
+
 // LoadReplay reads the replay file into v.
 func (c *Ctx) LoadReplay(v interface{}) {
 	b, err := os.ReadFile(c.Replay)
